@@ -540,9 +540,9 @@ def blocks(tier, seed):
     prod = [('product after %r' % (o,), allops, d - 1, o) for o in allops]
     return [
         Block('subsystem_fixpoints', cases, explore, 'each registry subsystem explored to a fixpoint (all histories of any length)',
-              nshards=len(cases)),
+              nshards=len(cases), backstop=7200),
         Block('full_product_bounded', prod, explore,
-              'all %d operations (registry calls + observers) in every order up to length %d' % (len(allops), d), nshards=len(prod)),
+              'all %d operations (registry calls + observers) in every order up to length %d' % (len(allops), d), nshards=len(prod), backstop=7200),
     ]
 
 
